@@ -1,6 +1,9 @@
 (* C02 — Rendered SQL is one confined boolean expression; user text only in literals.  (scanner-level lemmas; see DESIGN 6/C02) *)
 Require Import Parser Render PgModel SqlFrag.
 Require PgQuote PgIdent SqlParse SqlSemProof SqlEndToEnd SqlProvenance.
+Require Import SqlFragP.
+Require SqlLexP SqlEndToEndP SqlProvenanceP SqlConfinedP.
+From Coq Require Import ZArith.
 From Coq Require Import List String Ascii.
 Import ListNotations.
 
@@ -44,8 +47,27 @@ Theorem C02_fragment_columns_and_constants_come_from_the_query : forall (e : Par
   (forall s, In s (SqlProvenance.strs_of a) -> exists v, In v (SqlProvenance.strvals_of e) /\ s = str v).
 Proof. exact SqlProvenance.tr_provenance. Qed.
 
+
+(* the parameterized rendering, end to end on the model: whenever RenderParam returns a text for a tree of the fragment, PostgreSQL's
+   scanner and grammar models read that text (placeholders numbered as a client library does) as ONE expression, built from the
+   allowed constructs only, whose column references are field names of the query and which holds NO constant at all - no byte of
+   any value of the query is in the text *)
+Theorem C02_rendered_parameterized_sql_is_one_confined_expression :
+  forall (o2 : oracle2) (e : Parser.expr) (ts : list tok) (a : ast) (ps ps' : list value) (s : string),
+  trp e 1 = Some (ts, a, ps) -> names_ok e = true -> (Z.of_nat (1 + SqlLexP.pcount e) < 1000000000)%Z ->
+  render_param o2 e = Ret (s, ps', None) ->
+  pg_read (number_placeholders (str s)) = Some a /\ allowed a = true /\
+  (forall c, In c (SqlProvenance.cols_of a) -> exists f, In f (SqlProvenance.fields_of e) /\ c = str f) /\
+  SqlProvenanceP.consts_of a = [].
+Proof.
+  intros o2 e ts a ps ps' s T Nm Hk R. split; [exact (proj2 (SqlEndToEndP.render_param_reads o2 e ts a ps s ps' T Nm Hk R))|].
+  destruct (SqlConfinedP.trp_confined e ts a ps T) as [Al Co]. split; [exact Al|]. split; [exact Co|].
+  exact (proj1 (SqlProvenanceP.trp_no_constants e ts a ps T)).
+Qed.
+
 Print Assumptions C02_string_value_stays_in_its_literal.
 Print Assumptions C02_fragment_columns_and_constants_come_from_the_query.
 Print Assumptions C02_rendered_fragment_sql_is_one_confined_expression.
 Print Assumptions C02_fragment_sql_is_one_confined_expression.
 Print Assumptions C02_field_name_is_one_identifier.
+Print Assumptions C02_rendered_parameterized_sql_is_one_confined_expression.
